@@ -54,15 +54,18 @@ void PLSYPredictorAllLV(matrix *mx, PLSMODEL *model, matrix *tscores, matrix *y)
 void LDA(matrix *mx, matrix *my, LDAMODEL *lda){ fit_observe(mx,my); }
 void LDAPrediction(matrix *mx, LDAMODEL *lda, matrix *pfeatures, matrix *probability, matrix *mnpdf, matrix *prediction){ predict_observe(mx,prediction,1); }
 /* arbitrary random generator: every draw is any value of the requested range */
+static uint32_t seeds_seen[16]; static unsigned nseeds; static unsigned draws_before_seed, seeded;
+#define NOTE_SEED(s) do{ if(nseeds<16) seeds_seen[nseeds]=(s); nseeds++; seeded=1; }while(0)
+#define NOTE_DRAW() do{ if(!seeded) draws_before_seed++; }while(0)
 #if HP_RNG_DISTINCT
 /* reduced generator model: draws that the rejection loop would reject are skipped (a rejected draw has no effect other
  * than advancing the generator), i.e. each draw is an arbitrary NOT YET USED object id while unused ids remain */
 static unsigned used;
-void srand_(uint32_t seed){ used=0; }
-int randInt(int low, int high){ int v=(int)in_int(low, high-1); if(used!=((1u<<HP_N)-1u)) ASSUME(!(used & (1u<<v))); used|=1u<<v; return v; }
+void srand_(uint32_t seed){ used=0; NOTE_SEED(seed); }
+int randInt(int low, int high){ NOTE_DRAW(); int v=(int)in_int(low, high-1); if(used!=((1u<<HP_N)-1u)) ASSUME(!(used & (1u<<v))); used|=1u<<v; return v; }
 #else
-void srand_(uint32_t seed){ }
-int randInt(int low, int high){ int v=(int)in_int(low, high-1); return v; }
+void srand_(uint32_t seed){ NOTE_SEED(seed); }
+int randInt(int low, int high){ NOTE_DRAW(); int v=(int)in_int(low, high-1); return v; }
 #endif
 
 void harness(void){
@@ -87,6 +90,13 @@ void harness(void){
 #else
   BootstrapRandomGroupsCV(&in, HP_G, HP_IT, algo, py, pres, HP_T, NULL, 0);
   unsigned want=HP_IT;
+#endif
+#if HP_CV==2
+  /* seeding protocol: every worker seeds before its first draw, and the seeds consumed by a run are base+0 .. base+iterations-1,
+   * each once, whatever the thread count (so the result does not depend on how iterations are spread over threads) */
+  { uint32_t base=(uint32_t)(HP_G+HP_N+HP_NY+HP_IT); int ok=(nseeds==HP_IT) && draws_before_seed==0; unsigned m=0;
+    for(unsigned k=0;k<nseeds && k<16;k++){ uint32_t o=seeds_seen[k]-base; if(o>=HP_IT || (m&(1u<<o))) ok=0; else m|=1u<<o; }
+    CHECK(ok, "workers seed before drawing and the run consumes the seeds base..base+iterations-1 exactly once, for any thread count"); }
 #endif
   CHECK(!bad_shape, "learners receive well-formed training/test matrices");
   CHECK(!bad_leak, "out-of-sample: no model predicts an object it was trained on");
